@@ -2,7 +2,7 @@
 import fractions
 from . import common
 from .common import wint, wdy
-from .x_arith import mk, fmt_of
+from .x_arith import mk, fmt_of, mk_hist
 
 F = fractions.Fraction
 OPS = {'lt': lambda a, b: a < b, 'le': lambda a, b: a <= b, 'eq': lambda a, b: a == b, 'ne': lambda a, b: a != b,
@@ -19,22 +19,28 @@ def _bools(np, r, n):
     return out
 
 
-def observe_cmp(fx, np, props, tx, cxs, ty=None, cys=None, nums=None, side='right', scalar=False):
+def observe_cmp(fx, np, props, tx, cxs, ty=None, cys=None, nums=None, side='right', scalar=False, hist=None, numtype=None):
     """x <op> y for the six operators.  y: Fxp of format ty with codes cys, or plain numbers (Fractions) on the given side"""
     row = {'k': 'cmp', 'p': list(props), 'x': dict(zip('swf', (bool(tx[0]), tx[1], tx[2]))),
            'y': dict(zip('swf', (bool(ty[0]), ty[1], ty[2]))) if ty else {'s': False, 'w': 0, 'f': 0}, 'ykind': 'fxp' if ty else 'num',
            'side': side, 'route': 'fxp-fxp' if ty else 'fxp-num-' + side, 'carrier': 'scalar' if scalar else 'array'}
     try:
-        X = mk(fx, np, tx, cxs[0] if scalar else cxs)
+        X = mk_hist(fx, np, tx, cxs[0] if scalar else cxs, None, mode=hist) if hist else mk(fx, np, tx, cxs[0] if scalar else cxs)
+        if hist:
+            row['route'] += '/hist-' + hist
         n = 1 if scalar else len(cxs)
         if ty:
-            Y = mk(fx, np, ty, cys[0] if scalar else cys)
+            Y = mk_hist(fx, np, ty, cys[0] if scalar else cys, None, mode=hist) if hist else mk(fx, np, ty, cys[0] if scalar else cys)
             yv = []
         else:
             vals = [int(v) if v.denominator == 1 else float(v) for v in nums]
             # a plain number on the LEFT is a Python scalar (reflected operator); an ndarray on the left would go through
             # NumPy's ufunc dispatch, which C16 does not talk about
             Y = vals[0] if (scalar or side == 'left') else np.array([float(v) for v in nums])
+            if numtype is not None:      # the plain number carried by a NumPy scalar / array of a given dtype (exactly representable there)
+                tp = getattr(np, numtype)
+                Y = tp(vals[0]) if (scalar or side == 'left') else np.array(vals, dtype=tp)
+                row['route'] += '/' + numtype
             yv = [wdy(v) for v in (nums[:1] if scalar else (nums if side == 'right' else [nums[0]] * len(nums)))]
         res = {}
         for op, fn in OPS.items():
@@ -45,12 +51,14 @@ def observe_cmp(fx, np, props, tx, cxs, ty=None, cys=None, nums=None, side='righ
         return dict(row, k='error', err=type(ex).__name__, msg=str(ex)[:200])
 
 
-def observe_numconv(fx, np, props, t, codes, byvalue=False):
+def observe_numconv(fx, np, props, t, codes, byvalue=False, hist=None):
     from .x_conv import mkv
     row = {'k': 'numconv', 'p': list(props), 's': bool(t[0]), 'w': t[1], 'f': t[2], 'route': 'conv-' + ('value' if byvalue else 'raw'),
            'carrier': 'array'}
     try:
-        X = (mkv if byvalue else mk)(fx, np, t, codes)
+        X = mk_hist(fx, np, t, codes, None, mode=hist) if hist else (mkv if byvalue else mk)(fx, np, t, codes)
+        if hist:
+            row['route'] += '/hist-' + hist
         gv = np.asarray(X.get_val()).ravel().tolist()
         af = np.asarray(X.astype(float)).ravel().tolist()
         ai = np.asarray(X.astype(int)).ravel().tolist()
